@@ -60,6 +60,15 @@ def equivalences():
         add(f"slice_chain/{n1},{o1},{n2},{o2}", ("h",), lambda x, c, n1=n1, o1=o1, n2=n2, o2=o2: x >> pdt.arrange(x.h) >> pdt.slice_head(n1, offset=o1) >> pdt.slice_head(n2, offset=o2),
             lambda x, c, n1=n1, o1=o1, n2=n2, o2=o2: x >> pdt.arrange(x.h) >> pdt.slice_head(min(max(n1 - o2, 0), n2), offset=o1 + o2), uniq=True)
     add("inner_join_vs_cross_filter", ("a", "h"), lambda x, c: x >> pdt.inner_join(c.u, x.a == c.u.a), lambda x, c: x >> pdt.cross_join(c.u) >> pdt.filter(x.a == c.u.a))
+    # keys of different numeric types: the comparison is made in the common type (no key is truncated)
+    def _uf(c):
+        return c.u >> pdt.mutate(fk=c.u.a + 0.5, fk0=c.u.a * 1.0, ik=c.u.h + 23)
+
+    for kname, lk, rk in (("int==float(.5)", "a", "fk"), ("int==float(.0)", "a", "fk0"), ("float==int", "b", "ik")):
+        for how in ("inner", "left"):
+            add(f"{how}_join_vs_cross_filter/{kname}", (lk, "h"),
+                lambda x, c, lk=lk, rk=rk, how=how: (lambda uf: x >> pdt.join(uf, x[lk] == uf[rk], how) >> pdt.filter(uf[rk].is_not_null()))(_uf(c)),
+                lambda x, c, lk=lk, rk=rk: (lambda uf: x >> pdt.cross_join(uf) >> pdt.filter(x[lk] == uf[rk]))(_uf(c)))
     add("inner_join_vs_cross_filter/<", ("a", "h"), lambda x, c: x >> pdt.inner_join(c.u, (x.a < c.u.a) & (x.h + 5 >= c.u.h)), lambda x, c: x >> pdt.cross_join(c.u) >> pdt.filter((x.a < c.u.a) & (x.h + 5 >= c.u.h)))
     add("map_vs_when", ("a", "h"), lambda x, c: x >> pdt.mutate(m=x.a.map({1: 10, (2, 3): 20}, default=x.h)), lambda x, c: x >> pdt.mutate(m=pdt.when(x.a == 1).then(10).when(x.a.is_in(2, 3)).then(20).otherwise(x.h)))
     add("map_vs_when/nodefault", ("a",), lambda x, c: x >> pdt.mutate(m=x.a.map({1: 10, 5: 50})), lambda x, c: x >> pdt.mutate(m=pdt.when(x.a == 1).then(10).when(x.a == 5).then(50).otherwise(x.a)))
@@ -156,10 +165,10 @@ def make_q(backend, kind, eq_i):
                     continue
                 if a[0] == "rejected":
                     continue
-                ordered = (eid.startswith("slice_chain") or eid.startswith("arrange_verb")) or (ordered_ctx and not eid.startswith(("inner_join", "union")))
+                ordered = (eid.startswith("slice_chain") or eid.startswith("arrange_verb")) or (ordered_ctx and not eid.startswith(("inner_join", "left_join", "union")))
                 ca, cb = a[1], b[1]
                 ra, rb = a[2], b[2]
-                if eid.startswith("inner_join_vs_cross") and len(ca) == len(cb):
+                if eid.startswith(("inner_join_vs_cross", "left_join_vs_cross")) and len(ca) == len(cb):
                     # the documented suffix rule of join depends on which right columns occur in `on` (C06/C09), so
                     # the right column names may legitimately differ: the columns are compared by position
                     cb = ca
